@@ -241,3 +241,46 @@ def trace_band_angle(half_width):
     """largest rotation angle t with |trace - 3| = 2(1 - cos t) <= half_width"""
     x = 1.0 - half_width / 2.0
     return _math.acos(max(-1.0, min(1.0, x)))
+
+
+# ------------------------------------------------------------------------------------------ path enumeration
+class _NeedMore(Exception):
+    def __init__(self, cond):
+        self.cond = cond
+
+
+def enumerate_paths(run, ops=("<", ">", "<=", ">=", "argmax", "argmin"), max_paths=64):
+    """Enumerate the decision paths of ``run(oracle)``: every condition whose op is in ``ops`` is answered by a script;
+    when the script is exhausted the run is forked (booleans: 2 ways, argmax/argmin: one per entry).
+    Returns [(decisions [(cond, answer)], result | exception)]."""
+    out = []
+    work = [[]]
+    while work and len(out) < max_paths:
+        script = work.pop(0)
+        pos = [0]
+        taken = []
+
+        def oracle(c, it):
+            if c.op not in ops:
+                return None
+            if pos[0] < len(script):
+                a = script[pos[0]]
+                pos[0] += 1
+                taken.append((c, a))
+                return a
+            raise _NeedMore(c)
+        try:
+            res = run(oracle)
+            out.append((list(taken), res))
+        except _NeedMore as e:
+            c = e.cond
+            if c.op in ("argmax", "argmin"):
+                n = int(np.asarray(to_obj(c.lhs), dtype=object).size)
+                for k in range(n):
+                    work.append(script + [k])
+            else:
+                work.append(script + [True])
+                work.append(script + [False])
+        except Exception as e:        # Raised / Unsupported ... : a terminal outcome of this path
+            out.append((list(taken), e))
+    return out
